@@ -876,4 +876,335 @@ example (b : Vec 4 ℚ) : ∃ x, solve true (fun x : ℚ => |x|) (mapMat (fun x 
 end RoundedArithmetic
 end ScaleInvariance
 
+/-! ## Part 6 (round four): the hand-written LU / DiagonalMatrix model is tied to the source
+`tr_c02.py` re-reads, on every run, the loop headers, the statement order, the branch conditions, the arguments of the
+three `luDecomposition` calls and the scalar kernel of every update statement of `luDecomposition`, `Elim`, `ElimPivot`,
+`ElimDet`, the LU branches of `solve` / `invert` / `determinant` and of `DiagonalMatrix::solve / invert / determinant`
+(`DV.C02.Gen.lu*`, `elim*`, `backSubst*`, `det*`, `forward*`, `backward*`, `unpermute*`, `diag*`).  The `gen_*` lemmas say what
+each generated kernel computes over a field; the `tie_*` theorems say that the model functions the theorems of Parts 2-5
+speak about are exactly the loop skeletons instantiated with these kernels (and that the loop headers / call arguments
+are the ones the model mirrors).  A changed sign, operand, index, loop bound, comparison, flag or statement order in the
+source changes `Gen/C02.lean` and breaks the corresponding tie. -/
+section Ties
+variable {n : Nat} {K Q : Type} [Field K] [LinearOrder Q] [Zero Q]
+
+/-! ### what each generated kernel computes (proved with `ring`: commuted / re-associated source expressions still pass) -/
+theorem gen_luFactor (aki aii : K) : Gen.luFactor aki aii = aki / aii := by
+  simp only [Gen.luFactor] <;> ring
+theorem gen_luUpdate (akj fac aij : K) : Gen.luUpdate akj fac aij = akj - fac * aij := by
+  simp only [Gen.luUpdate] <;> ring
+theorem gen_elimRhsUpdate (rk fac ri : K) : Gen.elimRhsUpdate rk fac ri = rk - fac * ri := by
+  simp only [Gen.elimRhsUpdate] <;> ring
+theorem gen_elimDetSwap (same : Bool) (sign : K) :
+    Gen.elimDetSwap same sign = sign * (if same then (1 : K) else -(1 : K)) := by
+  cases same <;> simp [Gen.elimDetSwap]
+theorem gen_elimDetInit : (Gen.elimDetInit : K) = 1 := by simp only [Gen.elimDetInit]
+theorem gen_elimPivotSwap {α : Type} (same : Bool) (old j : α) :
+    Gen.elimPivotSwap same old j = if same then old else j := by
+  cases same <;> simp [Gen.elimPivotSwap]
+theorem gen_backSubstStep (xi a xj : K) : Gen.backSubstStep xi a xj = xi - a * xj := by
+  simp only [Gen.backSubstStep] <;> ring
+theorem gen_backSubstDiv (xi a : K) : Gen.backSubstDiv xi a = xi / a := by
+  simp only [Gen.backSubstDiv] <;> ring
+theorem gen_detStep (det a : K) : Gen.detStep det a = det * a := by
+  simp only [Gen.detStep] <;> ring
+theorem gen_detMask (ok : Bool) (det : K) : Gen.detMask ok det = if ok then det else 0 := by
+  cases ok <;> simp [Gen.detMask]
+theorem gen_forwardStep (b a c : K) : Gen.forwardStep b a c = b - a * c := by
+  simp only [Gen.forwardStep] <;> ring
+theorem gen_backwardStep (b a c : K) : Gen.backwardStep b a c = b - a * c := by
+  simp only [Gen.backwardStep] <;> ring
+theorem gen_backwardDiv (b a : K) : Gen.backwardDiv b a = b / a := by
+  simp only [Gen.backwardDiv] <;> ring
+theorem gen_diagSolveEntry (d b : K) : Gen.diagSolveEntry d b = b / d := by
+  simp only [Gen.diagSolveEntry] <;> ring
+theorem gen_diagInvertEntry (d : K) : Gen.diagInvertEntry d = 1 / d := by
+  simp only [Gen.diagInvertEntry] <;> ring
+theorem gen_diagDetStep (det d : K) : Gen.diagDetStep det d = det * d := by
+  simp only [Gen.diagDetStep] <;> ring
+
+/-! ### the hand-written model is the loop skeleton below instantiated with the generated kernels -/
+
+/-- `factor = A[k][i]/A[i][i]` -/
+theorem tie_factor (A : Mat n K) (i k : Fin n) : factor A i k = Gen.luFactor (A.f k i) (A.f i i) := by
+  simp only [factor, gen_luFactor]
+
+/-- `A[k][i] = factor; for j > i: A[k][j] -= factor*A[i][j]` -/
+theorem tie_elimRow (A : Mat n K) (i k : Fin n) (fac : K) :
+    elimRow A i k fac = Mat.ofFn fun r c =>
+      if r = k then (if c = i then fac else if i < c then Gen.luUpdate (A.f k c) fac (A.f i c) else A.f k c)
+      else A.f r c := by
+  simp only [elimRow, gen_luUpdate]
+
+/-- `Elim<V>`: `operator()` -/
+theorem tie_elimFunc_elim (rhs : Vec n K) (fac : K) (k i : Fin n) :
+    (elimFunc : Func n K (Vec n K)).elim rhs fac k i =
+      Vec.ofFn fun r => if r = k then Gen.elimRhsUpdate (rhs.f k) fac (rhs.f i) else rhs.f r := by
+  simp only [elimFunc, gen_elimRhsUpdate]
+
+/-- `ElimDet`: constructor and `swap` -/
+theorem tie_detFunc_swap (sign : K) (i j : Fin n) :
+    (detFunc : Func n K K).swap sign i j = Gen.elimDetSwap (decide (i = j)) sign := by
+  simp only [detFunc, gen_elimDetSwap, decide_eq_true_eq]
+
+/-- `ElimPivot`: constructor (`pivot_[i] = i`) and `swap` -/
+theorem tie_pivotFunc_swap (p : Vec n (Fin n)) (i j : Fin n) :
+    (pivotFunc : Func n K (Vec n (Fin n))).swap p i j =
+      Vec.ofFn fun r => if r = i then Gen.elimPivotSwap (decide (i = j)) (p.f i) j else p.f r := by
+  simp only [pivotFunc, gen_elimPivotSwap, decide_eq_true_eq]
+
+theorem tie_idPivot (i : Fin n) : ((idPivot : Vec n (Fin n)).f i).1 = Gen.elimPivotInit i.1 := by
+  simp [idPivot, Gen.elimPivotInit]
+
+/-- the pivot search: whatever comparison the source uses, a candidate is only taken when it is at least as large as
+the running maximum, and always when it is strictly larger (the model keeps the first maximum; which of several
+equal maxima is taken does not matter for any theorem) -/
+theorem tie_pivotBetter (a p : Q) :
+    (Gen.luPivotBetter a p = true → p ≤ a) ∧ (p < a → Gen.luPivotBetter a p = true) := by
+  unfold Gen.luPivotBetter
+  constructor
+  · intro h
+    have h' := of_decide_eq_true h
+    first | exact le_of_lt h' | exact h'
+  · intro h
+    first | exact decide_eq_true h | exact decide_eq_true (le_of_lt h)
+
+/-- `pivmax = cond(mask, abs, pivmax); imax = cond(mask, k, imax)` -/
+theorem tie_pivotSearch (absval : K → Q) (A : Mat n K) (i : Fin n) :
+    pivotSearch absval A i = forUp n (absval (A.f i i), i) fun k st =>
+      if i < k then
+        (Gen.luPivmaxUpdate (decide (st.1 < absval (A.f k i))) (absval (A.f k i)) st.1,
+         Gen.luImaxUpdate (decide (st.1 < absval (A.f k i))) k st.2)
+      else st := by
+  unfold pivotSearch
+  congr 1
+  funext k st
+  by_cases h : i < k
+  · by_cases h2 : st.1 < absval (A.f k i) <;> simp [h, h2, Gen.luPivmaxUpdate, Gen.luImaxUpdate]
+  · simp [h]
+
+/-- the singularity test `nonsingularLanes && (pivmax != 0)` is the model's `pivmax == 0 → fail` -/
+theorem tie_nonsingular (p : Q) : Gen.luNonsingular true p = !(p == 0) := by
+  simp [Gen.luNonsingular]
+
+/-- back substitution -/
+theorem tie_backSubst (A : Mat n K) (rhs : Vec n K) :
+    backSubst A rhs = forDown n rhs fun i x =>
+      Vec.ofFn fun r =>
+        if r = i then
+          Gen.backSubstDiv (forUp n (x.f i) fun j acc => if i < j then Gen.backSubstStep acc (A.f i j) (x.f j) else acc)
+            (A.f i i)
+        else x.f r := by
+  simp only [backSubst, gen_backSubstStep, gen_backSubstDiv]
+
+/-- determinant: `det = sign; for i: det *= A[i][i]; det = cond(nonsingularLanes, det, 0)` -/
+theorem tie_detLU (piv : Bool) (absval : K → Q) (A : Mat n K) :
+    detLU piv absval A =
+      Gen.detMask (luDecomp piv absval detFunc A (Gen.elimDetInit : K)).ok
+        (forUp n (luDecomp piv absval detFunc A (Gen.elimDetInit : K)).s
+          fun i det => Gen.detStep det ((luDecomp piv absval detFunc A (Gen.elimDetInit : K)).A.f i i)) := by
+  simp only [detLU, gen_detMask, gen_detStep, gen_elimDetInit]
+
+/-- inverse: forward and backward sweeps -/
+theorem tie_forwardL (L B : Mat n K) :
+    forwardL L B = forUp n B fun i B =>
+      forUp n B fun j B =>
+        if j < i then Mat.ofFn fun r c => if r = i then Gen.forwardStep (B.f i c) (L.f i j) (B.f j c) else B.f r c
+        else B := by
+  simp only [forwardL, gen_forwardStep]
+
+theorem tie_backwardU (U B : Mat n K) :
+    backwardU U B = forDown n B fun i B =>
+      Mat.ofFn fun r c =>
+        if r = i then
+          Gen.backwardDiv (forUp n (B.f i c) fun j acc => if i < j then Gen.backwardStep acc (U.f i j) (B.f j c) else acc)
+            (U.f i i)
+        else B.f r c := by
+  simp only [backwardU, gen_backwardStep, gen_backwardDiv]
+
+/-- DiagonalMatrix -/
+theorem tie_solveDiag (d b : Vec n K) : solveDiag d b = Vec.ofFn fun i => Gen.diagSolveEntry (d.f i) (b.f i) := by
+  simp only [solveDiag, gen_diagSolveEntry]
+theorem tie_invertDiag (d : Vec n K) : invertDiag d = Vec.ofFn fun i => Gen.diagInvertEntry (d.f i) := by
+  simp only [invertDiag, gen_diagInvertEntry]
+theorem tie_detDiag (d : Vec (n + 1) K) :
+    detDiag d = forUp (n + 1) (d.f ⟨Gen.diagDetInitIndex, by simp [Gen.diagDetInitIndex]⟩)
+      fun i det => if Gen.diagDetInitIndex < i.1 then Gen.diagDetStep det (d.f i) else det := by
+  simp only [detDiag, gen_diagDetStep, Gen.diagDetInitIndex]
+  rfl
+
+/-- loop headers, statement order and call arguments as the model mirrors them -/
+theorem tie_lu_loops :
+    Gen.luLoops = [("i", "0", "i<n", "up"), ("j", "0", "j<n", "up"),
+                   ("k", "i+1", "k<n", "up"), ("j", "i+1", "j<n", "up")] ∧
+    (Gen.luSearchLoop = ("k", "i+1", "k<n", "up") ∨ Gen.luSearchLoop = ("k", "i", "k<n", "up")) ∧
+    Gen.luRowSwap = ["A[i][j]", "A[imax][j]"] ∧ Gen.luFuncSwapArgs = ["i", "imax"] ∧
+    Gen.luFuncElimArgs = ["factor", "k", "i"] ∧ Gen.elimRhsSwap = ["(*rhs_)[i]", "(*rhs_)[j]"] ∧
+    Gen.elimPivotInitLoop = [("i", "0", "i<n", "up")] :=
+  ⟨rfl, by first | exact Or.inl rfl | exact Or.inr rfl, rfl, rfl, rfl, rfl, rfl⟩
+
+theorem tie_branch_loops :
+    Gen.backSubstLoops = [("i", "n-1", "i>=0", "down"), ("j", "i+1", "j<n", "up")] ∧
+    Gen.detLoops = [("i", "0", "i<n", "up")] ∧
+    Gen.invertInitLoops = [("i", "0", "i<n", "up")] ∧
+    Gen.forwardLoops = [("i", "0", "i<n", "up"), ("j", "0", "j<i", "up"), ("k", "0", "k<n", "up")] ∧
+    Gen.backwardLoops = [("i", "n", "i>0", "down, --i first"), ("k", "0", "k<n", "up"), ("j", "i+1", "j<n", "up")] ∧
+    Gen.unpermuteLoops = [("i", "n", "i>0", "down, --i first"), ("j", "0", "j<n", "up")] ∧
+    Gen.unpermuteSwap = ["(*this)[j][i]", "(*this)[j][pi]"] ∧
+    Gen.diagLoops = [("i", "0", "i<n", "up"), ("i", "0", "i<n", "up"), ("i", "1", "i<n", "up")] :=
+  ⟨rfl, rfl, rfl, rfl, rfl, rfl, rfl, rfl⟩
+
+/-- the three calls of `luDecomposition`: the operand is a local copy of `*this` (so `solve` / `determinant` cannot
+modify the matrix through it) and `throwEarly` is `true` for solve / invert (singular ⇒ FMatrixError) and `false` for
+determinant (singular ⇒ the masked value 0).  (The third component, "the caller's `doPivoting` is passed on", is generated
+but deliberately not tied: always pivoting would keep every clause of the property.) -/
+theorem tie_lu_calls :
+    (Gen.solveLUCall.1 = true ∧ Gen.solveLUCall.2.1 = true) ∧
+    (Gen.invertLUCall.1 = true ∧ Gen.invertLUCall.2.1 = true) ∧
+    (Gen.determinantLUCall.1 = true ∧ Gen.determinantLUCall.2.1 = false) :=
+  ⟨⟨rfl, rfl⟩, ⟨rfl, rfl⟩, ⟨rfl, rfl⟩⟩
+
+
+/-! non-vacuity: the generated kernels evaluate on concrete rationals, and the tied model functions run on the 4×4
+example with a row exchange -/
+example : Gen.luFactor (6 : ℚ) 3 = 2 ∧ Gen.luUpdate (5 : ℚ) 2 3 = -1 ∧ Gen.elimRhsUpdate (5 : ℚ) 2 3 = -1 ∧
+    Gen.backSubstStep (7 : ℚ) 2 3 = 1 ∧ Gen.backSubstDiv (6 : ℚ) 4 = 3 / 2 ∧ Gen.detStep (2 : ℚ) 5 = 10 ∧
+    Gen.forwardStep (1 : ℚ) 2 3 = -5 ∧ Gen.backwardStep (1 : ℚ) 2 3 = -5 ∧ Gen.backwardDiv (1 : ℚ) 4 = 1 / 4 ∧
+    Gen.diagSolveEntry (4 : ℚ) 2 = 1 / 2 ∧ Gen.diagInvertEntry (4 : ℚ) = 1 / 4 ∧ Gen.diagDetStep (2 : ℚ) 3 = 6 := by
+  simp only [gen_luFactor, gen_luUpdate, gen_elimRhsUpdate, gen_backSubstStep, gen_backSubstDiv, gen_detStep,
+    gen_forwardStep, gen_backwardStep, gen_backwardDiv, gen_diagSolveEntry, gen_diagInvertEntry, gen_diagDetStep]
+  norm_num
+example : Gen.elimDetSwap false (1 : ℚ) = -1 ∧ Gen.elimDetSwap true (1 : ℚ) = 1 ∧
+    Gen.elimPivotSwap false (0 : Fin 4) 2 = 2 ∧ Gen.detMask false (5 : ℚ) = 0 ∧ Gen.detMask true (5 : ℚ) = 5 := by
+  simp [gen_elimDetSwap, gen_elimPivotSwap, gen_detMask]
+example : Gen.luPivotBetter (3 : ℚ) 2 = true ∧ Gen.luPivotBetter (2 : ℚ) 3 = false ∧
+    Gen.luNonsingular true (0 : ℚ) = false ∧ Gen.luNonsingular true (2 : ℚ) = true := by
+  refine ⟨(tie_pivotBetter 3 2).2 (by norm_num), ?_, ?_, ?_⟩
+  · cases h : Gen.luPivotBetter (2 : ℚ) 3
+    · rfl
+    · exact absurd ((tie_pivotBetter (2 : ℚ) 3).1 h) (by norm_num)
+  · rw [tie_nonsingular]; simp
+  · rw [tie_nonsingular]; simp
+end Ties
+
+/-! ## Part 7 (round four): histories and consistency between the operations
+Second use of an object (`A.invert(); A.invert()` restores A), `solve` against `invert` and `determinant`, the pivoting
+mode is irrelevant for the result, and DiagonalMatrix agrees with the dense matrix `diag(d)` on every path. -/
+section History
+variable {K Q : Type} [Field K] [LinearOrder Q] [Zero Q]
+
+/-- whatever invert returns for a nonsingular matrix is the two-sided inverse — both pivoting modes, every n -/
+theorem invert_sound (piv : Bool) {absval : K → Q} (habs : AbsLike absval) :
+    ∀ {n : Nat} (A B : Mat n K), (toMatrix A).det ≠ 0 → invert piv absval A = .ok B →
+      toMatrix A * toMatrix B = 1 ∧ toMatrix B * toMatrix A = 1
+  | 0, A, B, _, hB => invertLU_correct piv habs A B hB
+  | 1, A, B, h, hB => by
+    injection hB with hB; rw [← hB, toMatrix_matOf1]; exact invert1_correct (toMatrix A) h
+  | 2, A, B, h, hB => by
+    injection hB with hB; rw [← hB, toMatrix_matOf2]; exact invert2_correct (toMatrix A) h
+  | 3, A, B, h, hB => by
+    injection hB with hB; rw [← hB, toMatrix_matOf3]; exact invert3_correct (toMatrix A) h
+  | _ + 4, A, B, _, hB => invertLU_correct piv habs A B hB
+
+/-- the result of invert is nonsingular again -/
+theorem invert_det_ne_zero (piv : Bool) {absval : K → Q} (habs : AbsLike absval) {n : Nat} (A B : Mat n K)
+    (hdet : (toMatrix A).det ≠ 0) (hB : invert piv absval A = .ok B) : (toMatrix B).det ≠ 0 := by
+  have h := (invert_sound piv habs A B hdet hB).2
+  have h1 : (toMatrix B).det * (toMatrix A).det = 1 := by rw [← Matrix.det_mul, h, Matrix.det_one]
+  exact left_ne_zero_of_mul_eq_one h1
+
+/-- **second use of the object: `A.invert(); A.invert();` restores A** — any combination of pivoting modes, every n:
+the second call returns (pivoting on) and whatever it returns is A -/
+theorem invert_invert (piv piv' : Bool) {absval : K → Q} (habs : AbsLike absval) {n : Nat} (A B C : Mat n K)
+    (hdet : (toMatrix A).det ≠ 0) (hB : invert piv absval A = .ok B) (hC : invert piv' absval B = .ok C) :
+    toMatrix C = toMatrix A := by
+  have hAB := (invert_sound piv habs A B hdet hB).1
+  have hBC := (invert_sound piv' habs B C (invert_det_ne_zero piv habs A B hdet hB) hC).1
+  calc toMatrix C = (toMatrix A * toMatrix B) * toMatrix C := by rw [hAB, Matrix.one_mul]
+    _ = toMatrix A * (toMatrix B * toMatrix C) := Matrix.mul_assoc _ _ _
+    _ = toMatrix A := by rw [hBC, Matrix.mul_one]
+
+theorem invert_invert_returns (piv : Bool) {absval : K → Q} (habs : AbsLike absval) {n : Nat} (A B : Mat n K)
+    (hdet : (toMatrix A).det ≠ 0) (hB : invert piv absval A = .ok B) :
+    ∃ C, invert true absval B = .ok C ∧ toMatrix C = toMatrix A := by
+  obtain ⟨C, hC, _⟩ := invert_spec habs B (invert_det_ne_zero piv habs A B hdet hB)
+  exact ⟨C, hC, invert_invert piv true habs A B C hdet hB hC⟩
+
+/-- **solve and invert agree**: the solution returned by `solve` is `B·b` for the matrix `B` left by `invert` -/
+theorem solve_eq_invert_mulVec (piv piv' : Bool) {absval : K → Q} (habs : AbsLike absval) {n : Nat}
+    (A B : Mat n K) (b x : Vec n K) (hdet : (toMatrix A).det ≠ 0)
+    (hx : solve piv absval A b = .ok x) (hB : invert piv' absval A = .ok B) :
+    x.f = toMatrix B *ᵥ b.f := by
+  have h1 := solve_sound piv habs A b x hdet hx
+  have h2 := (invert_sound piv' habs A B hdet hB).2
+  calc x.f = (1 : Matrix (Fin n) (Fin n) K) *ᵥ x.f := (Matrix.one_mulVec _).symm
+    _ = (toMatrix B * toMatrix A) *ᵥ x.f := by rw [h2]
+    _ = toMatrix B *ᵥ (toMatrix A *ᵥ x.f) := by rw [Matrix.mulVec_mulVec]
+    _ = toMatrix B *ᵥ b.f := by rw [h1]
+
+/-- **the result of solve does not depend on the pivoting mode** (when both calls return) -/
+theorem solve_pivoting_irrelevant (piv piv' : Bool) {absval : K → Q} (habs : AbsLike absval) {n : Nat}
+    (A : Mat n K) (b x y : Vec n K) (hdet : (toMatrix A).det ≠ 0)
+    (hx : solve piv absval A b = .ok x) (hy : solve piv' absval A b = .ok y) : x.f = y.f := by
+  obtain ⟨B, hB, _⟩ := invert_spec habs A hdet
+  rw [solve_eq_invert_mulVec piv true habs A B b x hdet hx hB, solve_eq_invert_mulVec piv' true habs A B b y hdet hy hB]
+
+/-- **determinant of the inverse** -/
+theorem determinant_invert (piv : Bool) {absval : K → Q} (habs : AbsLike absval) {n : Nat} (A B : Mat n K)
+    (hdet : (toMatrix A).det ≠ 0) (hB : invert piv absval A = .ok B) :
+    determinant true absval B * determinant true absval A = 1 := by
+  rw [determinant_spec habs, determinant_spec habs, ← Matrix.det_mul, (invert_sound piv habs A B hdet hB).2, Matrix.det_one]
+
+/-- the dense matrix `diag(d)` -/
+def diagMat {n : Nat} (d : Vec n K) : Mat n K := Mat.ofFn fun i j => if i = j then d.f i else 0
+
+theorem toMatrix_diagMat {n : Nat} (d : Vec n K) : toMatrix (diagMat d) = Matrix.diagonal d.f := by
+  ext i j
+  simp [diagMat, Matrix.diagonal_apply]
+
+/-- **DiagonalMatrix and FieldMatrix/DynamicMatrix agree**: `DiagonalMatrix::solve` returns what the dense `solve`
+(either pivoting mode, closed form or LU path) returns for the matrix `diag(d)` -/
+theorem solveDiag_eq_solve (piv : Bool) {absval : K → Q} (habs : AbsLike absval) {n : Nat} (d b x : Vec n K)
+    (h : ∀ i, d.f i ≠ 0) (hx : solve piv absval (diagMat d) b = .ok x) : x.f = (solveDiag d b).f := by
+  have hdet : (toMatrix (diagMat d)).det ≠ 0 := by
+    rw [toMatrix_diagMat, Matrix.det_diagonal]; exact Finset.prod_ne_zero_iff.mpr fun i _ => h i
+  obtain ⟨B, hB, _, hBA⟩ := invert_spec habs (diagMat d) hdet
+  have h1 := solve_eq_invert_mulVec piv true habs (diagMat d) B b x hdet hx hB
+  have h2 : toMatrix (diagMat d) *ᵥ (solveDiag d b).f = b.f := by
+    rw [toMatrix_diagMat]; exact solveDiag_correct d b h
+  rw [h1, ← h2, Matrix.mulVec_mulVec, hBA, Matrix.one_mulVec]
+
+/-- … and so do `determinant` and `invert` -/
+theorem detDiag_eq_determinant {absval : K → Q} (habs : AbsLike absval) {n : Nat} (d : Vec (n + 1) K) :
+    detDiag d = determinant true absval (diagMat d) := by
+  rw [determinant_spec habs, toMatrix_diagMat, detDiag_eq]
+
+theorem invertDiag_eq_invert (piv : Bool) {absval : K → Q} (habs : AbsLike absval) {n : Nat} (d : Vec n K) (B : Mat n K)
+    (h : ∀ i, d.f i ≠ 0) (hB : invert piv absval (diagMat d) = .ok B) :
+    toMatrix B = Matrix.diagonal (invertDiag d).f := by
+  have hdet : (toMatrix (diagMat d)).det ≠ 0 := by
+    rw [toMatrix_diagMat, Matrix.det_diagonal]; exact Finset.prod_ne_zero_iff.mpr fun i _ => h i
+  have h1 := (invert_sound piv habs (diagMat d) B hdet hB).2
+  have h2 := (invertDiag_correct d h).1
+  rw [← toMatrix_diagMat] at h2
+  calc toMatrix B = toMatrix B * (toMatrix (diagMat d) * Matrix.diagonal (invertDiag d).f) := by rw [h2, Matrix.mul_one]
+    _ = (toMatrix B * toMatrix (diagMat d)) * Matrix.diagonal (invertDiag d).f := (Matrix.mul_assoc _ _ _).symm
+    _ = Matrix.diagonal (invertDiag d).f := by rw [h1, Matrix.one_mul]
+
+/-! non-vacuity: the 4×4 example with a row exchange goes through two inversions; a nonsingular diagonal exists -/
+example : ∃ B C, invert true (fun x : ℚ => |x|) exA = .ok B ∧ invert true (fun x : ℚ => |x|) B = .ok C ∧
+    toMatrix C = toMatrix exA := by
+  obtain ⟨B, hB, _⟩ := invert_spec absLike_abs_rat exA exA_det
+  obtain ⟨C, hC, hCA⟩ := invert_invert_returns true absLike_abs_rat exA B exA_det hB
+  exact ⟨B, C, hB, hC, hCA⟩
+example : ∀ i : Fin 4, (Vec.ofFn ![(2 : ℚ), 3, 5, 7] : Vec 4 ℚ).f i ≠ 0 := by
+  intro i; fin_cases i <;> simp
+example (d b : Vec 4 ℚ) (h : ∀ i, d.f i ≠ 0) :
+    ∃ x, solve true (fun x : ℚ => |x|) (diagMat d) b = .ok x ∧ x.f = (solveDiag d b).f := by
+  have hdet : (toMatrix (diagMat d)).det ≠ 0 := by
+    rw [toMatrix_diagMat, Matrix.det_diagonal]; exact Finset.prod_ne_zero_iff.mpr fun i _ => h i
+  obtain ⟨x, hx, _⟩ := solve_spec absLike_abs_rat (diagMat d) b hdet
+  exact ⟨x, hx, solveDiag_eq_solve true absLike_abs_rat d b x h hx⟩
+end History
+
 end DV.C02
